@@ -526,6 +526,38 @@ func churnProgram(rng *rand.Rand, n int, big bool, variant int) *program {
 	return p
 }
 
+// manyProgram fills tables with well over a thousand small live entries each (compaction moves at most a thousand entries per
+// step), deletes every second key and compacts: nothing that was not deleted may disappear.
+func manyProgram(rng *rand.Rand) *program {
+	// short keys, so that an entry takes about 40 bytes and a table of 128 KiB holds some 3200 of them; with 45 % of them
+	// deleted a table is over the garbage threshold and still holds some 1750 live entries
+	keys := make([]string, 6400)
+	for i := range keys {
+		keys[i] = string([]byte{byte('a' + i%26), byte('a' + (i/26)%26), byte('a' + i/676)})
+	}
+	p := &program{Src: "many", T: 131072, IdleMs: 0, Keys: keys, ObsEvery: 100000, Pattern: "^[abc]"}
+	raw := rng.Intn(2) == 0
+	o := "put"
+	if raw {
+		o = "putraw"
+	}
+	for _, k := range keys {
+		p.Ops = append(p.Ops, op{Op: o, K: k, Sz: minEntry + len(k)})
+	}
+	for i, k := range keys {
+		if i%20 < 9 {
+			p.Ops = append(p.Ops, op{Op: "del", K: k})
+		}
+	}
+	p.Ops = append(p.Ops, op{Op: "compactall"}, op{Op: "compactall"})
+	for i := 0; i < 300; i++ {
+		k := keys[rng.Intn(len(keys))]
+		p.Ops = append(p.Ops, op{Op: o, K: k, Sz: minEntry + len(k) + 6})
+	}
+	p.Ops = append(p.Ops, op{Op: "compactall"})
+	return p
+}
+
 // mixedProgram alternates tiny and nearly table-sized entries: tables are sealed almost empty (the next entry did not fit), and
 // their few entries die with the next overwrite.  A table without live entries must not survive a completed compaction.
 func mixedProgram(rng *rand.Rand, rounds int) *program {
@@ -647,6 +679,9 @@ func TestKV(t *testing.T) {
 	}
 	for i := 0; i < envInt("VERIF_KV_CHURN", 0); i++ {
 		progs = append(progs, churnProgram(rng, envInt("VERIF_KV_CHURN_LEN", 3000), false, i))
+	}
+	for i := 0; i < envInt("VERIF_KV_MANY", 0); i++ {
+		progs = append(progs, manyProgram(rng))
 	}
 	for i := 0; i < envInt("VERIF_KV_MIXED", 0); i++ {
 		progs = append(progs, mixedProgram(rng, 60))
